@@ -132,6 +132,46 @@ let rec render (d : WireSem.dval) : string =
   | WireSem.DErr v -> "E(" ^ render v ^ ")"
   | WireSem.DCycle up -> "cycle^" ^ string_of_int (int_of_nat up)
 
+(* Two denotations of one cyclic value can differ in WHERE a cycle is closed: which occurrence of a shared node
+   is spelled out and which is a cycle^n marker depends on the order in which the entries of a Go map happen to be
+   written.  [unfold] renders the regular tree a denotation stands for, down to a fixed depth, resolving every
+   cycle marker against the stack of enclosing containers; equal trees have equal unfoldings (map entries sorted).
+   Used only when the plain renderings differ.  None: too large to decide this way. *)
+exception Too_big
+type frame = F of WireSem.dval * frame list
+let unfold (d0 : WireSem.dval) : string option =
+  let budget = ref 400000 in
+  let out s = budget := !budget - String.length s; if !budget < 0 then raise Too_big; s in
+  let rec go depth stack d =
+    if depth = 0 then "~" else
+    match d with
+    | WireSem.DCycle up ->
+        let k = int_of_nat up in
+        (match Stdlib.List.nth_opt stack (k - 1) with
+         | Some (F (c, s)) -> go (depth - 1) s c
+         | None -> out "cycle?")
+    | WireSem.DList vs ->
+        let st = F (d, stack) :: stack in
+        out ("[" ^ String.concat " " (Stdlib.List.map (go (depth - 1) st) vs) ^ "]")
+    | WireSem.DMap kvs ->
+        let st = F (d, stack) :: stack in
+        let rec pairs = function
+          | k :: v :: r -> (go (depth - 1) st k ^ "=>" ^ go (depth - 1) st v) :: pairs r
+          | _ -> [] in
+        out ("{" ^ String.concat " " (Stdlib.List.sort compare (pairs kvs)) ^ "}")
+    | WireSem.DObj (name, fields, vs) ->
+        let st = F (d, stack) :: stack in
+        out ("obj:" ^ hex_of_bytes name ^ "(" ^
+             String.concat " " (Stdlib.List.map2 (fun f v -> hex_of_bytes f ^ "=" ^ go (depth - 1) st v) fields vs) ^ ")")
+    | WireSem.DErr v -> out ("E(" ^ go (depth - 1) (F (d, stack) :: stack) v ^ ")")
+    | _ -> out (render d) in
+  try Some (go 14 [] d0) with Too_big -> None
+
+(* equal as written, or equal as the trees they stand for *)
+let same_denotation (d : WireSem.dval) (a : WireSem.dval) : bool =
+  render d = render a ||
+  (match unfold d, unfold a with Some x, Some y -> x = y | _ -> false)
+
 let fuel = nat_of_int 100000
 
 let cut s = if String.length s > 300 then String.sub s 0 300 ^ "..." else s
@@ -172,8 +212,13 @@ let run line =
               (match Abs.abs_top hp fuel root with
                | Some a ->
                    let rd = render d and ra = render a in
-                   if rd = ra then add "go_den_eq_abs" "1"
-                   else (add "go_den_eq_abs" "0"; add "go_den_txt" (cut rd); add "abs_txt" (cut ra))
+                   if same_denotation d a then add "go_den_eq_abs" "1"
+                   else (add "go_den_eq_abs" "0"; add "go_den_txt" (cut rd); add "abs_txt" (cut ra);
+                         (* cycle markers are relative to the position of an occurrence: when a node of a cycle is also
+                            reached from elsewhere, WHICH occurrence is spelled out depends on the order of map entries *)
+                         let has_cycle t = let n = String.length t in
+                           let rec f i = i + 6 <= n && (String.sub t i 6 = "cycle^" || f (i + 1)) in f 0 in
+                         if has_cycle rd || has_cycle ra then add "den_cyclic" "1")
                | None -> add "go_den_eq_abs" "noabs")
           | None -> add "go_den" "fail")
      | None -> add "go_parse" "fail")
@@ -222,7 +267,7 @@ let run_seq line =
              (match WireSem.denote_seq WireSem.rinit mine with
               | Some ds ->
                   Stdlib.List.iter2 (fun d a -> match a with
-                    | Some a -> if render d <> render a then all_eq := false
+                    | Some a -> if not (same_denotation d a) then all_eq := false
                     | None -> all_eq := false) ds seg
               | None -> den_ok := false)) !segments;
            add "go_den" (if !den_ok then "ok" else "fail");
